@@ -635,6 +635,11 @@ class World(object):
 
     ev_dack = ev_ack
 
+    def ev_misack(self, a, name, tgt):
+        """An acknowledgement of the wrong type for the exchange (PUBREC for a QoS 1 id, PUBACK for a QoS 2 id): it is
+        delivered but NOT recorded as an acknowledgement of the request."""
+        self.deliver(self.conn(a), rc.enc_ack(name, self.target_id(a, tgt)))
+
     def ev_dupconnack(self, a, rcode=0, sp=False):
         self.ev_connack(a, rcode, sp)
 
